@@ -40,6 +40,7 @@ type FuncContract struct {
 	Borrows  []string
 	Inplace  []string
 	Props    []string // properties whose ownership/frame/effects obligations this function carries
+	Preserves bool // `preserves-existing`: no field of an object that existed before the call is changed (only fresh objects are written)
 	Borrowed bool // results alias data the caller does not own (heap look-ups)
 	Effects  []string
 	Fresh    bool
@@ -226,6 +227,8 @@ func parseContractFile(path, pkgDir string) ([]*FuncContract, error) {
 			cur.Inplace = append(cur.Inplace, splitNames(rest)...)
 		case "borrowed":
 			cur.Borrowed = true
+		case "preserves-existing":
+			cur.Preserves = true
 		case "effects":
 			cur.Effects = append(cur.Effects, splitNames(rest)...)
 			if len(splitNames(rest)) == 0 {
